@@ -171,9 +171,9 @@ theorem varops_are_left_folds (c : Cfg) (N : NumOps) (x y : Val) (rest : List Va
 /-- the looping methods called directly with n operands (`(:+ x b1 ... bn)`): the sum / product of all operands, reduced
     mod 2^64 (stated for operands boxed in the receiver's kind) -/
 theorem nary_methods_wrap (k : Kind) (a : Int) (bs : List Int) :
-    (∃ r, methodLoop k (opMethod k "+") false a (bs.map (Val.box k)) = .ok r ∧ (bs = [] ∨ k.inRange r) ∧
+    (∃ r, methodLoop k (opMethod k "+") none a (bs.map (Val.box k)) = .ok r ∧ (bs = [] ∨ k.inRange r) ∧
       BitVec.ofInt 64 r = BitVec.ofInt 64 (a + bs.sum)) ∧
-    (∃ r, methodLoop k (opMethod k "*") false a (bs.map (Val.box k)) = .ok r ∧
+    (∃ r, methodLoop k (opMethod k "*") none a (bs.map (Val.box k)) = .ok r ∧
       BitVec.ofInt 64 r = BitVec.ofInt 64 (bs.foldl (· * ·) a)) :=
   ⟨methodLoop_add k a bs, methodLoop_mul k a bs⟩
 
